@@ -1203,7 +1203,18 @@ class HeaderSet(cabc.MutableSet[str]):
         old = self._headers[idx]
         self._set.remove(old.lower())
         self._headers[idx] = value
-        self._set.add(value.lower())
+        key = value.lower()
+
+        if key in self._set:
+            # The header is in the set at another index already, it moves here.
+            pos = range(len(self._headers))[idx]
+            self._headers[:] = [
+                h
+                for i, h in enumerate(self._headers)
+                if i == pos or h.lower() != key
+            ]
+
+        self._set.add(key)
         if self.on_update is not None:
             self.on_update(self)
 
